@@ -295,7 +295,7 @@ class SimNet:
         self.k = kernel
         self.listeners = {}
         self.conns = []
-        self.next_port = 40000
+        self.next_port = 0
         self.blackholes = set()    # (host, port) that never answer
         self.refuse = set()
 
@@ -317,7 +317,7 @@ class SimNet:
         sock.state = 'connecting'
         sock.remote = (addr[0], addr[1])
         self.next_port += 1
-        sock.local = (sock.owner.host, self.next_port)
+        sock.local = (sock.owner.host, 40000 + self.next_port % 20000)
         sock.conn_id = len(self.conns)
         self.conns.append(sock)
         lat = self.latency(sock)
